@@ -1001,6 +1001,52 @@ func (u *universe) orderPairs(names []string) [][3]string {
 	return out
 }
 
+// ascendingLoops: every loop of fd is `for i := 0; i < x.Len(); i++` (or `… < x.NumField()`), there is
+// no range loop over anything but MapKeys(), and nothing is handed to sort.… / slices.… — the
+// reflective path emits the members of a slice front to back. Returns the loops found and what is wrong.
+func ascendingLoops(fd *ast.FuncDecl) (int, []string) {
+	var bad []string
+	loops := 0
+	ast.Inspect(fd.Body, func(n ast.Node) bool {
+		switch s := n.(type) {
+		case *ast.ForStmt:
+			loops++
+			ok := false
+			if as, isAs := s.Init.(*ast.AssignStmt); isAs && len(as.Rhs) == 1 {
+				if bl, isLit := as.Rhs[0].(*ast.BasicLit); isLit && bl.Value == "0" {
+					if be, isBin := s.Cond.(*ast.BinaryExpr); isBin && be.Op == token.LSS {
+						if inc, isInc := s.Post.(*ast.IncDecStmt); isInc && inc.Tok == token.INC {
+							ok = true
+						}
+					}
+				}
+			}
+			if !ok {
+				bad = append(bad, "a for loop that is not `for i := 0; i < n; i++`")
+			}
+		case *ast.RangeStmt:
+			loops++
+			if !strings.Contains(funString(stripCall(s.X)), "MapKeys") {
+				bad = append(bad, "a range loop over "+funString(stripCall(s.X)))
+			}
+		case *ast.CallExpr:
+			f := funString(s.Fun)
+			if strings.HasPrefix(f, "sort.") || strings.HasPrefix(f, "slices.") {
+				bad = append(bad, "a call of "+f)
+			}
+		}
+		return true
+	})
+	return loops, bad
+}
+
+func stripCall(e ast.Expr) ast.Expr {
+	if ce, ok := e.(*ast.CallExpr); ok {
+		return ce.Fun
+	}
+	return e
+}
+
 // ---------------------------------------------------------------- registries
 
 func registry(f *ast.File, varName string) (map[string]string, []string) {
@@ -1248,6 +1294,37 @@ func main() {
 		}
 	} else {
 		changed("Generator.Emit not found")
+	}
+
+	// the reflective path walks slices front to back
+	for _, fn := range []string{"emitSlice", "emitStructLiteral", "emitStructValue"} {
+		fd := an.funcs[fn]
+		if fd == nil || fd.Body == nil {
+			changed("%s not found", fn)
+			continue
+		}
+		loops, bad := ascendingLoops(fd)
+		if loops == 0 {
+			changed("%s: no loop found (order analysis of the reflective path lost its footing)", fn)
+		}
+		for _, b := range bad {
+			changed("%s: %s (members of an ordered collection may be emitted out of order)", fn, b)
+		}
+	}
+	// … and Generate walks the statements of the program by range
+	if fd := an.funcs["Generate"]; fd != nil && fd.Body != nil {
+		found := false
+		ast.Inspect(fd.Body, func(n ast.Node) bool {
+			if rs, ok := n.(*ast.RangeStmt); ok && funString(rs.X) == "pf.Program.Statements" {
+				found = true
+			}
+			return true
+		})
+		if !found {
+			changed("Generator.Generate: `range pf.Program.Statements` not found")
+		}
+	} else {
+		changed("Generator.Generate not found")
 	}
 
 	// ---- which structs to describe
